@@ -1,7 +1,7 @@
 from rules import shared as S
 
 DOC = {
-    'explanation': 'C08 structural clauses: one door to the backend, check-then-latch in every operation, no dropped storage error (discard allow-list), writes refused after a failure, failed commit discards the allocator, no clean-shutdown record after a failure, drop skips rollback I/O, failed write-back keeps the page',
+    'explanation': 'C08 structural clauses: one door to the backend, check-then-latch in every operation, no dropped storage error (discard allow-list), writes refused after a failure, failed commit discards the allocator, no clean-shutdown record after a failure, drop skips rollback I/O, failed write-back keeps the page, recovery verification covers every table and page (C12 rules shared)',
     'decided': [],
     'not_decided': ['state after reopen for every fault index (needs fault enumeration)'],
 }
@@ -20,3 +20,6 @@ def rules(ctx):
     S.c01_r1_commit_protocol(ctx)
     S.c01_r2_grow(ctx)
     S.c01_r8_open_recovery(ctx)
+    # recovery after a torn 1-phase commit rests on complete checksum verification
+    S.c12_db_rules(ctx)
+    S.c12_tree_rules(ctx)
